@@ -954,6 +954,31 @@ Section NestedDetect.
     rewrite (reference_nested h0 kids hs p Hl Hprev) in Href. rewrite (Hcons e (proj1 (find_original_recorded _ _ _ Href))).
     intros E. apply Hd. symmetry. exact E.
   Qed.
+
+  (* a file the history it belongs to has never recorded is named as new (exit 21, or 11 when something was altered too) *)
+  Theorem nested_new_detected h0 kids hs ipats ifile p c r :
+    load C cdig (Dir h0 kids) = inl hs -> nprev hs ->
+    In (p, c) (ev_files (events matches C (set_patterns (latest_patterns (lh_gens (root_hist hs))) ipats (pattern_file_lines ifile)) [] (Dir h0 kids))) ->
+    find_original (lh_gens (route_to hs p)) (strip_prefix (lh_root (route_to hs p)) p) = None ->
+    verify_result Hb matches C cdig false (Dir h0 kids) ipats ifile = Some r ->
+    In p (vr_new r) /\ (vr_code r = 11%Z \/ vr_code r = 21%Z) /\ (vr_mismatch r = [] -> vr_code r = 21%Z).
+  Proof.
+    intros Hl Hprev Hin Hno Hv. apply (new_file_detected Hb matches C cdig (Dir h0 kids) hs ipats ifile p c r Hl Hin); [|exact Hv].
+    rewrite (reference_nested h0 kids hs p Hl Hprev). exact Hno.
+  Qed.
+  (* an entry some generation of some history recorded, gone from the tree and not ignored: named as missing, exit code not 0 *)
+  Theorem nested_removed_detected h0 kids hs ipats ifile h g rec r :
+    load C cdig (Dir h0 kids) = inl hs -> nprev hs ->
+    let spec := set_patterns (latest_patterns (lh_gens (root_hist hs))) ipats (pattern_file_lines ifile) in
+    In h hs -> In g (lh_gens h) -> In rec (g_records g) ->
+    ~ In (lh_root h ++ r_path rec) (visited (events matches C spec [] (Dir h0 kids))) -> ignored matches spec (lh_root h ++ r_path rec) = false ->
+    verify_result Hb matches C cdig false (Dir h0 kids) ipats ifile = Some r ->
+    In (lh_root h ++ r_path rec) (vr_missing r) /\ vr_code r <> 0%Z /\ (vr_mismatch r = [] -> vr_new r = [] -> vr_code r = 10%Z).
+  Proof.
+    intros Hl Hprev spec Hh Hg Hr Hnv Hign Hv.
+    apply (missing_entry_detected Hb matches C cdig (Dir h0 kids) hs ipats ifile _ r Hl); auto.
+    apply (expected_nested hs Hprev). exists h, g, rec. auto.
+  Qed.
 End NestedDetect.
 
 (* ---- C08: every history whose folder the traversal reaches gets a new generation ---- *)
@@ -965,6 +990,28 @@ Section NestedScope.
   Variable ser : gen -> C.
   Notation node := (node C).
 
+  Lemma routed_rel_nonempty_n h0 kids hs p c : wf_tree C (Dir h0 kids) -> load C cdig (Dir h0 kids) = inl hs ->
+    get C (Dir h0 kids) p = Some (File c) -> strip_prefix (lh_root (route_to hs p)) p <> [].
+  Proof.
+    intros Hwf Hl Hgt. destruct (load_list_facts C cdig h0 kids hs Hl) as [Hroot [_ [Hrin Hpar]]].
+    destruct (route_good hs Hroot p) as [Hg Hin]. set (h := route_to hs p) in *.
+    assert (Hh : In h hs) by (destruct Hin as [Hin|Hin]; [exact Hin|rewrite Hin; exact Hrin]).
+    assert (Hjoin : lh_root h ++ strip_prefix (lh_root h) p = p) by (apply strip_prefix_rejoin; exact Hg).
+    intros E. rewrite E, app_nil_r in Hjoin. destruct (load_elems C cdig h0 kids hs Hwf Hl h Hh) as [_ [Hnn _]].
+    destruct (lh_root h) as [|n r] eqn:Er; [subst p; cbn in Hgt; discriminate|].
+    assert (Hx : get_hist C (Dir h0 kids) (n :: r) <> None) by (apply Hnn; discriminate).
+    unfold get_hist in Hx. rewrite Hjoin, Hgt in Hx. apply Hx. reflexivity.
+  Qed.
+  Lemma parent_root_differs_n t hs h par : wf_tree C t -> load C cdig t = inl hs -> In h hs -> lh_parent h = Some par -> par <> lh_root h.
+  Proof.
+    intros Hwf Hl Hh Hp E. pose proof (load_roots_NoDup C cdig t hs Hwf Hl) as Hnd.
+    apply in_split in Hh. destruct Hh as [l1 [l2 Ehs]].
+    destruct (load_children_first C cdig t hs Hl l1 h l2 Ehs) as [Hn|[h' [Hh' Hp']]]; [congruence|].
+    rewrite Ehs, map_app in Hnd. cbn [map] in Hnd. apply NoDup_remove_2 in Hnd. apply Hnd. apply in_or_app. right.
+    rewrite <- E. rewrite Hp in Hp'. injection Hp' as ->. apply in_map. exact Hh'.
+  Qed.
+  Lemma written_of_pair_n (a : node) out w m1 m2 m3 ops i d : o_written (snd (a, mkObs out w m1 m2 m3 ops i d)) = w.
+  Proof. reflexivity. Qed.
   Lemma route_own_root hs h : lh_root (root_hist hs) = [] -> In h hs -> lh_root (route_to hs (lh_root h)) = lh_root h.
   Proof.
     intros Hroot Hh. destruct (route_deepest hs (root_hist hs) (lh_root h)) as [H1 [_ H3]]; [unfold good; rewrite Hroot; reflexivity|].
@@ -1003,6 +1050,33 @@ Section NestedScope.
       unfold sess_add at 1. destruct (path_eqb_spec par k) as [->|Hne]; [rewrite sess_get_set_same; discriminate|rewrite (sess_get_set_other _ _ _ _ Hne); apply Hself].
   Qed.
 
+  (* the traversal reaches a path only through folders it reaches: every proper ancestor (from the start folder on) of an
+     event's path is the path of a folder event *)
+  Lemma ev_ancestors_dirs spec : forall (t : node) p0 q, In q (map ev_path (events matches C spec p0 t)) ->
+    forall rel1 rel2, q = p0 ++ rel1 ++ rel2 -> rel2 <> [] -> In (p0 ++ rel1) (dirs_of (events matches C spec p0 t)).
+  Proof.
+    induction t as [c|h kids IH] using node_ind'; intros p0 q Hq rel1 rel2 E Hr2; [destruct Hq|].
+    assert (Hself : In p0 (dirs_of (events matches C spec p0 (Dir h kids)))) by (apply dirs_dir; right; reflexivity).
+    destruct rel1 as [|n r1]; [rewrite app_nil_r; exact Hself|].
+    apply (ev_paths_split matches) in Hq. rewrite files_dir, dirs_dir in Hq.
+    assert (Hsub : forall x, In x (vis_of matches C spec p0 kids) -> In q (map ev_path (sub_evs C x)) ->
+                   In (p0 ++ n :: r1) (dirs_of (events matches C spec p0 (Dir h kids)))).
+    { intros x Hx Hqx. apply dirs_dir. left. exists x. split; [exact Hx|].
+      pose proof Hx as Hx0. unfold vis_of in Hx0. apply filter_In in Hx0. destruct Hx0 as [Hx0 _]. apply sort_In in Hx0.
+      unfold subs in Hx0. apply in_map_iff in Hx0. destruct Hx0 as [nk [<- Hin]]. unfold sub_evs in *. cbn [fst snd] in *.
+      rewrite Forall_forall in IH. specialize (IH nk Hin). destruct (snd nk) eqn:Ek; [destruct Hqx|].
+      destruct (ev_below matches C spec _ _ _ Hqx) as [rel' Eq'].
+      assert (En : fst nk = n /\ rel' = r1 ++ rel2).
+      { rewrite Eq', <- !app_assoc in E. apply app_inv_head in E. cbn [app] in E. injection E as -> ->. auto. }
+      destruct En as [En Er]. rewrite En in *. replace (p0 ++ n :: r1) with ((p0 ++ [n]) ++ r1) by (rewrite <- app_assoc; reflexivity).
+      apply (IH (p0 ++ [n]) q Hqx r1 rel2); [|exact Hr2]. rewrite Eq', Er. reflexivity. }
+    destruct Hq as [[[x [Hx H]]|[x [c [Hx [_ Eq]]]]]|[[x [Hx H]]|Eq]].
+    - apply (Hsub x Hx). apply (ev_paths_split matches). left. exact H.
+    - exfalso. rewrite Eq in E. apply app_inv_head in E. cbn [app] in E. injection E as _ E. destruct r1; [cbn in E; subst; congruence|discriminate].
+    - apply (Hsub x Hx). apply (ev_paths_split matches). right. exact H.
+    - exfalso. rewrite Eq in E. rewrite <- (app_nil_r p0) in E at 1. apply app_inv_head in E. discriminate.
+  Qed.
+
   Theorem visited_histories_write h0 kids hs req no_dh ip ifl t' o h :
     wf_tree C (Dir h0 kids) -> load C cdig (Dir h0 kids) = inl hs ->
     create_folder Hb matches C cdig ser (Dir h0 kids) req no_dh false ip ifl = (t', o) ->
@@ -1015,6 +1089,96 @@ Section NestedScope.
     pose proof (run_not_aborted Hb matches C cdig ser h0 kids hs req no_dh ip ifl Hwf Hl) as Hna.
     destruct (commit_set C cdig ser InPlace _ _ hs (Dir h0 kids) (load_roots_NoDup C cdig _ _ Hwf Hl) (load_children_first C cdig _ hs Hl) Hna) as [_ Hwrote].
     apply (proj2 (Hwrote h Hh)). left. apply fold_dir_present; [exact Hvis|apply route_own_root; assumption].
+  Qed.
+
+  (* which events give a history a new list *)
+  Definition touches (hs : list lhist) (e : ev) (k : path) : Prop :=
+    match e with
+    | EvFile p _ => lh_root (route_to hs p) = k
+    | EvDir p _ => lh_root (route_to hs p) = k \/ (strip_prefix (lh_root (route_to hs p)) p = [] /\ lh_parent (route_to hs p) = Some k)
+    end.
+  Lemma sess_add_get s k1 q d sz es k : sess_get (sess_add s k1 q d sz es) k <> None -> k1 = k \/ sess_get s k <> None.
+  Proof.
+    unfold sess_add. destruct (path_eqb_spec k1 k) as [->|Hne]; [left; reflexivity|]. rewrite (sess_get_set_other _ _ _ _ Hne). right. assumption.
+  Qed.
+  Lemma fold_touch hs fmts no_dh spec (t : node) k : forall l s f,
+    sess_get (fst (fold_left (process_event Hb matches C hs fmts no_dh spec t) l (s, f))) k <> None ->
+    sess_get s k <> None \/ exists e, In e l /\ touches hs e k.
+  Proof.
+    induction l as [|e l IH]; intros s f H; cbn [fold_left] in H; [left; exact H|].
+    destruct (process_event Hb matches C hs fmts no_dh spec t (s, f) e) as [s1 f1] eqn:Ep.
+    destruct (IH s1 f1 H) as [H1|[e' [He' Ht]]]; [|right; exists e'; split; [right; exact He'|exact Ht]].
+    destruct e as [p c|p k0]; cbn [process_event] in Ep.
+    - unfold seal_file in Ep. destruct (seal _ _ _ _) as [es res]. injection Ep as <- _. destruct es as [|e0 es']; [left; exact H1|].
+      destruct (sess_add_get _ _ _ _ _ _ _ H1) as [E|H0]; [right; exists (EvFile p c); split; [left; reflexivity|exact E]|left; exact H0].
+    - injection Ep as <- _. unfold record_dir in H1.
+      destruct (strip_prefix (lh_root (route_to hs p)) p) as [|n q'] eqn:Eq.
+      + destruct (lh_parent (route_to hs p)) as [par|] eqn:Epar.
+        * destruct (sess_add_get _ _ _ _ _ _ _ H1) as [E|H0]; [right; exists (EvDir p k0); split; [left; reflexivity|right; rewrite Eq, Epar, E; auto]|].
+          destruct (sess_add_get _ _ _ _ _ _ _ H0) as [E|H00]; [right; exists (EvDir p k0); split; [left; reflexivity|left; exact E]|left; exact H00].
+        * destruct (sess_add_get _ _ _ _ _ _ _ H1) as [E|H0]; [right; exists (EvDir p k0); split; [left; reflexivity|left; exact E]|left; exact H0].
+      + destruct (sess_add_get _ _ _ _ _ _ _ H1) as [E|H0]; [right; exists (EvDir p k0); split; [left; reflexivity|left; exact E]|left; exact H0].
+  Qed.
+
+  (* ... and conversely: only histories whose folder the traversal reaches get a new generation *)
+  Theorem written_histories_are_reached h0 kids hs req no_dh ip ifl :
+    wf_tree C (Dir h0 kids) -> load C cdig (Dir h0 kids) = inl hs ->
+    let spec := set_patterns (latest_patterns (lh_gens (root_hist hs))) ip (pattern_file_lines ifl) in
+    let evs := events matches C spec [] (Dir h0 kids) in
+    forall k doc, In (k, doc) (o_written (snd (create_folder Hb matches C cdig ser (Dir h0 kids) req no_dh false ip ifl))) ->
+      (exists h, In h hs /\ lh_root h = k) /\ In k (dirs_of evs).
+  Proof.
+    intros Hwf Hl spec evs k doc Hin. destruct (load_list_facts C cdig h0 kids hs Hl) as [Hroot [_ [Hrin Hpar]]].
+    rewrite (run_is Hb matches C cdig ser h0 kids hs req no_dh ip ifl Hl), written_of_pair_n in Hin.
+    pose proof (run_not_aborted Hb matches C cdig ser h0 kids hs req no_dh ip ifl Hwf Hl) as Hna.
+    pose proof (load_roots_NoDup C cdig _ _ Hwf Hl) as Hnd.
+    destruct (commit_set C cdig ser InPlace _ _ hs (Dir h0 kids) Hnd (load_children_first C cdig _ hs Hl) Hna) as [Hin_roots Hwrote].
+    fold spec in Hin, Hin_roots, Hwrote. fold evs in Hin, Hin_roots, Hwrote.
+    set (sess := fst (fold_left (process_event Hb matches C hs (sort_fmts req) no_dh spec (Dir h0 kids)) evs ([], 0))) in *.
+    set (cs := commit C cdig ser hs InPlace (Dir h0 kids) sess spec) in *.
+    assert (Hk : In k (map lh_root hs)) by (apply Hin_roots; exists doc; exact Hin).
+    apply in_map_iff in Hk. destruct Hk as [h [Ek Hh]]. split; [exists h; auto|]. subst k.
+    (* every proper ancestor of a reached path is a reached folder *)
+    assert (Hanc : forall q k, In q (map ev_path evs) -> is_prefix k q = true -> k <> q -> In k (dirs_of evs)).
+    { intros q k Hq Hp Hne. apply is_prefix_spec in Hp. destruct Hp as [s0 ->].
+      apply (ev_ancestors_dirs spec (Dir h0 kids) [] (k ++ s0) Hq k s0 eq_refl). intros ->. apply Hne. rewrite app_nil_r. reflexivity. }
+    assert (Hreach : forall n h1, In h1 hs -> length (lh_root h1) + n >= S (list_max (map (fun x => length (lh_root x)) hs)) ->
+                       wrote C cs (lh_root h1) -> In (lh_root h1) (dirs_of evs)).
+    { induction n as [|n IHn]; intros h1 Hh1 Hlen Hw.
+      - exfalso. assert (Hle : length (lh_root h1) <= list_max (map (fun x => length (lh_root x)) hs)).
+        { pose proof (proj1 (list_max_le (map (fun x => length (lh_root x)) hs) _) (Nat.le_refl _)) as Hall. rewrite Forall_forall in Hall.
+          apply Hall. apply in_map_iff. exists h1. auto. }
+        lia.
+      - destruct (proj1 (Hwrote h1 Hh1) Hw) as [Hs|[c [Hc [Hpc Hwc]]]].
+        + destruct (fold_touch hs (sort_fmts req) no_dh spec (Dir h0 kids) (lh_root h1) evs [] 0 Hs) as [H0|[e [He Ht]]]; [exfalso; apply H0; reflexivity|].
+          destruct e as [p c0|p k0]; cbn [touches] in Ht.
+          * (* a file routed to this history: below its folder *)
+            assert (Hpc : In (p, c0) (ev_files evs)) by (unfold ev_files; apply in_flat_map; exists (EvFile p c0); split; [exact He|left; reflexivity]).
+            destruct (ev_files_get matches C spec (Dir h0 kids) [] p c0 Hwf Hpc) as [rel [E Hgt]]. cbn [app] in E. subst rel.
+            destruct (route_good hs Hroot p) as [Hg _]. rewrite Ht in Hg.
+            apply (Hanc p); [apply in_map_iff; exists (EvFile p c0); auto|exact Hg|].
+            intros E. pose proof (routed_rel_nonempty_n h0 kids hs p c0 Hwf Hl Hgt) as Hne. apply Hne. rewrite Ht, E.
+            rewrite <- (app_nil_r p) at 2. apply strip_prefix_app.
+          * destruct Ht as [Ht|[Hq Hpa]].
+            -- destruct (route_good hs Hroot p) as [Hg _]. rewrite Ht in Hg.
+               destruct (path_eqb_spec (lh_root h1) p) as [->|Hne]; [unfold dirs_of; apply in_flat_map; exists (EvDir p k0); split; [exact He|left; reflexivity]|].
+               apply (Hanc p); [apply in_map_iff; exists (EvDir p k0); auto|exact Hg|exact Hne].
+            -- (* the root folder of a child history *)
+               destruct (route_good hs Hroot p) as [Hg Hin']. set (c := route_to hs p) in *.
+               assert (Hc : In c hs) by (destruct Hin' as [H|H]; [exact H|rewrite H; exact Hrin]).
+               assert (Ecp : lh_root c = p) by (rewrite <- (strip_prefix_rejoin _ _ Hg), Hq, app_nil_r; reflexivity).
+               apply (Hanc p); [apply in_map_iff; exists (EvDir p k0); auto| |].
+               ++ rewrite <- Ecp. apply (Hpar c (lh_root h1)); [left; exact Hc|exact Hpa].
+               ++ rewrite <- Ecp. apply (parent_root_differs_n (Dir h0 kids) hs c (lh_root h1) Hwf Hl Hc Hpa).
+        + (* a child history wrote: its folder is reached (it is deeper), so is this one *)
+          assert (Hcl : length (lh_root c) > length (lh_root h1)).
+          { pose proof (Hpar c (lh_root h1) (or_introl Hc) Hpc) as Hp. apply is_prefix_spec in Hp. destruct Hp as [s0 Es].
+            pose proof (parent_root_differs_n (Dir h0 kids) hs c (lh_root h1) Hwf Hl Hc Hpc) as Hne.
+            rewrite Es, app_length. destruct s0; [exfalso; apply Hne; rewrite Es, app_nil_r; reflexivity|cbn [length]; lia]. }
+          pose proof (IHn c Hc ltac:(lia) Hwc) as Hrc.
+          apply (Hanc (lh_root c)); [apply (ev_paths_split matches); right; exact Hrc|apply (Hpar c (lh_root h1)); [left; exact Hc|exact Hpc]|].
+          apply (parent_root_differs_n (Dir h0 kids) hs c (lh_root h1) Hwf Hl Hc Hpc). }
+    apply (Hreach (S (list_max (map (fun x => length (lh_root x)) hs))) h Hh); [lia|exists doc; exact Hin].
   Qed.
 End NestedScope.
 
